@@ -4,6 +4,7 @@ import ParryModel.C03.Lemmas
 import ParryModel.C03.Sat
 import ParryModel.C03.Theorems2
 import ParryModel.C03.Theorems3
+import ParryModel.C03.Theorems4
 /-!
 # C03 property theorems: argument-order and frame independence.
 
@@ -750,5 +751,25 @@ theorem intersectionTestCuboidCuboid2_swap (m : Iso2 K) (he1 he2 : V2 K) (h : Un
   simp [hA, hB]
 
 example : Unit2 (⟨3/5, 4/5, ⟨1, -2⟩⟩ : Iso2 ℚ) := by unfold Unit2; norm_num
+
+open Model.CC in
+/-- **`intersection_test_cuboid_cuboid` (dim3) decides intersection**: under the hypotheses of
+`intersectionTestCuboidCuboid_true_partial` (unit `pos12`, non-negative half-extents, every candidate edge axis exactly
+zero or longer than `f64::EPSILON`) the verdict is `true` **iff** the cuboids share a point — soundness
+(`intersectionTestCuboidCuboid_false_disjoint`) and completeness of the fifteen axes together. -/
+theorem intersectionTestCuboidCuboid_true_iff (m : Iso3 K) (he1 he2 : V3 K) (h : Unit3 m) (hs : LawfulSqrt sq)
+    (h1 : ∀ k, 0 ≤ comp he1 k) (h2 : ∀ l, 0 ≤ comp he2 l)
+    (hgen : ∀ a ∈ @satEdgeAxes K (fieldNum K sq) m,
+      @V3.dot K (fieldNum K sq) a a = 0 ∨ @realEps K (fieldNum K sq) < @V3.norm K (fieldNum K sq) a) :
+    @intersectionTestCuboidCuboid K (fieldNum K sq) m he1 he2 = true ↔ CuboidsMeet sq he1 he2 m := by
+  constructor
+  · exact intersectionTestCuboidCuboid_true_partial sq m he1 he2 h hs h1 h2 hgen
+  · rintro ⟨y, hy, hx⟩
+    by_contra hne
+    have hf : @intersectionTestCuboidCuboid K (fieldNum K sq) m he1 he2 = false := by
+      simpa using hne
+    exact intersectionTestCuboidCuboid_false_disjoint sq m he1 he2 h hf _ y hx hy rfl
+
+example : Unit3 (⟨0, 0, 0, 1, ⟨1, -2, 3⟩⟩ : Iso3 ℚ) := by unfold Unit3; norm_num
 
 end C03
